@@ -40,15 +40,16 @@ def process_level(res, tier):
                         for per in ("Ts", "rev"):
                             if per == "rev" and not (n == ns[0] and (sx, sy) == shifts[0]):
                                 continue
-                            cases.append((steps, n, sx, sy, si, q0, p0, rf, per))
+                            # synchrotron frequency: close to what the default alpha0 implies, and far from it (main() then derives alpha0 from -f)
+                            for fs in ((45000.0, 30000.0) if (sx, sy) == shifts[0] and si == 0 else (45000.0,)):
+                                cases.append((steps, n, sx, sy, si, q0, p0, rf, per, fs))
 
     def do(c):
-        steps, n, sx, sy, si, q0, p0, rf, per = c
+        steps, n, sx, sy, si, q0, p0, rf, per, fs = c
         sc = 1.0 if rf == "linear" else 0.25
-        tag = "s%d_n%d_%g_%g_%d_%s_%s" % (steps, n, sx, sy, si, rf, per)
+        tag = "s%d_n%d_%g_%g_%d_%s_%s_%g" % (steps, n, sx, sy, si, rf, per, fs)
         start = os.path.join(wd, "start_%s.h5" % tag)
         pl.write_start_h5(start, n, gauss_start(n, sx, sy, q0 * sc, p0 * sc, 0.7))
-        fs = 45000.0
         a = ["-s", n, "-T", 1, "-n", 1, "-G", 0, "-d", 0, "--FPType", 0, "--RenormalizeCharge", -1, "-i", start, "-f", fs,
              "--PhaseSpaceShiftX", sx, "--PhaseSpaceShiftY", sy, "--InterpolationPoints", 4, "--LinearRF", "true" if rf == "linear" else "false", "--padding", 2]
         if per == "Ts":
@@ -65,8 +66,8 @@ def process_level(res, tier):
         return c, r, doc
 
     for c, r, doc in pl.pmap(do, cases):
-        steps, n, sx, sy, si, q0, p0, rf, per = c
-        case = "process steps=%d n=%d shift=%g,%g start=%d rf=%s stepsper=%s" % (steps, n, sx, sy, si, rf, per)
+        steps, n, sx, sy, si, q0, p0, rf, per, fs = c
+        case = "process steps=%d n=%d shift=%g,%g start=%d rf=%s stepsper=%s fs=%g" % (steps, n, sx, sy, si, rf, per, fs)
         rp = dict(cmd=r["cmd"], note="start file: Gaussian blob at (%g,%g)*%s, width 0.7, written by tools/h5json --write" % (q0, p0, "1" if rf == "linear" else "0.25"))
         if doc is None or "error" in doc:
             res.violate("C03/process/run-failed", case, "rc=%s %s" % (r["rc"], r["log"][-200:]), replay=rp)
